@@ -285,6 +285,15 @@ def oracle_C08(meta, kw, res):
                     break
         except (ValueError, IndexError):
             pass
+    # y_e equals the continuous solution at t_e (dense runs): both come from the same step interpolant, so the deviation is
+    # rounding at most (seeded change C08-c returned a stale scratch buffer when Brent converged on entry)
+    ys = [abs(v) for yy in res.get("y", []) for v in yy if v == v and abs(v) != math.inf]
+    yscale = max([1.0] + ys)
+    for i, (fails, dev) in res.get("evsol", {}).items():
+        if fails:
+            out.append(("event-state-vs-sol", "sol(t_e) failed for %d reported event(s) of function %d" % (fails, i)))
+        elif not (dev <= 1e-9 * yscale):
+            out.append(("event-state-vs-sol", "y_events of function %d differ from sol(t_events) by %.3g" % (i, dev)))
     for i, tev in res.get("tev", {}).items():
         for a, b in zip(tev, tev[1:]):
             # the same root may be reported from both adjacent steps; such twins are ordered only up to root-finder accuracy
